@@ -27,9 +27,14 @@ func C09_Middleware() {
 	w := world.New()
 	expireAfter := time.Duration(verif.Int("ExpireAfter", 1, maxDur))
 	w.AB.Config.Modules.ExpireAfter = expireAfter
-	wl := verif.Choice("whitelist", 3)
-	whiteW := wl >= 1
-	if wl == 1 {
+	wl := verif.Choice("whitelist", 4)
+	white := map[string]bool{"app_w": wl >= 1}
+	if wl == 3 {
+		// an application may whitelist marks of the library itself ("all whitelists"): they are
+		// kept like any other whitelisted value (uid and last_action always go)
+		w.AB.Config.Storage.SessionStateWhitelistKeys = []string{"app_w", authboss.SessionHalfAuthKey, authboss.Session2FA}
+		white[authboss.SessionHalfAuthKey], white[authboss.Session2FA] = true, true
+	} else if wl == 1 {
 		w.AB.Config.Storage.SessionStateWhitelistKeys = []string{"app_w"}
 	} else if wl == 2 {
 		// application keys that embed the names of library keys must not un-hide those
@@ -79,7 +84,7 @@ func C09_Middleware() {
 	if expired {
 		verif.Assert(uidSeen == "", "expired: downstream sees no current user")
 		for _, k := range keys {
-			if k == "app_w" && whiteW {
+			if white[k] {
 				verif.Assert(obs[k] == pre[k], "expired: whitelisted value passes through")
 				_, has := w.Session.Lookup(k)
 				verif.Assert(has == pre[k].ok, "expired: whitelisted value kept in the session")
